@@ -70,7 +70,7 @@ def mutable_lines(text):
     lines = text.split("\n")
     ok = []
     in_test = False
-    skip_next = False
+    skip_next = 0
     depth_debug = 0
     for i, l in enumerate(lines):
         st = l.strip()
@@ -78,11 +78,14 @@ def mutable_lines(text):
             in_test = True
         if in_test:
             continue
-        if skip_next:
-            skip_next = False
+        if skip_next > 0:
+            skip_next -= 1
             continue
         if st.startswith("#[cfg(memchr_verif)]"):
-            skip_next = True
+            skip_next = 3 if lines[i + 1].strip().startswith("if ") else 1      # hook statement or hook if-block
+            continue
+        if st.startswith("#[cfg(not(") or st.startswith("#[cfg(all(not("):
+            skip_next = 3          # branches that are compiled out on this host
             continue
         if st.startswith("//") or st.startswith("#[") or st.startswith("#!") or not st:
             continue
